@@ -85,6 +85,26 @@ pub struct CaseOut {
 pub struct Cx<'r> {
     pub rec: &'r mut Recorder,
     pub prop: Prop,
+    /// the case in progress, written line by line BEFORE each line runs, so that the supervising parent
+    /// process can name the failing input if the real code takes the process down (SIGSEGV / abort)
+    pub journal: Option<std::fs::File>,
+}
+
+impl Cx<'_> {
+    pub fn journal_case(&mut self, header: &str) {
+        use std::io::{Seek, Write};
+        if let Some(f) = &mut self.journal {
+            let _ = f.set_len(0);
+            let _ = f.seek(std::io::SeekFrom::Start(0));
+            let _ = f.write_all(format!("{header}\n").as_bytes());
+        }
+    }
+    pub fn journal_line(&mut self, line: &str) {
+        use std::io::Write;
+        if let Some(f) = &mut self.journal {
+            let _ = f.write_all(format!("{line}\n").as_bytes());
+        }
+    }
 }
 
 pub type RunFn = fn(&str, &Header, &mut dyn OpSource, &mut Cx) -> CaseOut;
@@ -180,6 +200,8 @@ struct Oracle<'a, 'r> {
     /// after the first failure of a case the remaining checks are skipped (no cascades)
     muted: bool,
     failed: bool,
+    /// set by a (non-known) failure: the rest of the case is answered `dead`
+    stop: bool,
 }
 
 impl Oracle<'_, '_> {
@@ -190,6 +212,8 @@ impl Oracle<'_, '_> {
         self.cx.rec.fail(class, &detail);
         self.muted = true;
         self.failed = true;
+        // the state is wrong from here on: running more ops on it could take the process down
+        self.stop = true;
     }
     /// a known-finding class: recorded, but checking continues
     fn known(&mut self, class: &str, detail: String) {
@@ -266,6 +290,7 @@ fn known_class_for(kind: Kind) -> &'static str {
 pub fn run_case<T: Node + ?Sized>(header_line: &str, hdr: &Header, src: &mut dyn OpSource, cx: &mut Cx) -> CaseOut {
     let prop = cx.prop;
     cx.rec.case(header_line);
+    cx.journal_case(header_line);
     let mut out = CaseOut { lines: vec![header_line.to_string()], ..Default::default() };
     let shape = T::shape();
 
@@ -297,7 +322,7 @@ pub fn run_case<T: Node + ?Sized>(header_line: &str, hdr: &Header, src: &mut dyn
         _ => dead = true,
     }
     let mut levels: Vec<Vec<Step>> = vec![vec![]];
-    let mut orc = Oracle { cx, shape: shape.clone(), model: init, muted: false, failed: false };
+    let mut orc = Oracle { cx, shape: shape.clone(), model: init, muted: false, failed: false, stop: false };
     if dead {
         orc.fail("panic", "creating the top accessor failed".into());
     } else {
@@ -318,11 +343,13 @@ pub fn run_case<T: Node + ?Sized>(header_line: &str, hdr: &Header, src: &mut dyn
         };
         ops_done += 1;
         out.lines.push(line.clone());
+        orc.cx.journal_line(&line);
         let Some(ol) = parse_op(&line) else {
             orc.cx.rec.op(&line, "bad-op");
             continue;
         };
-        if dead {
+        if dead || orc.stop {
+            dead = true;
             orc.cx.rec.op(&line, "dead");
             continue;
         }
